@@ -110,7 +110,8 @@ GEN = LEAN / "RxModel" / "Gen"
 EXPANDED_TIES = ("RxModel.GenTie.Subject", "RxModel.GenTie.SubjectThreads", "RxModel.GenTie.Behavior",
                  "RxModel.GenTie.BehaviorThreads", "RxModel.GenTie.Subscription", "RxModel.GenTie.GroupBy", "RxModel.GenTie.MergeAll",
                  "RxModel.GenTie.MergeAllThreads") + tuple(
-    f"RxModel.GenTie.{w}{m}{t}" for w in ("", "Wiring") for m in ("Delay", "ObserveOn") for t in ("", "Threads"))
+    f"RxModel.GenTie.{w}{m}{t}" for w in ("", "Wiring") for m in ("Delay", "ObserveOn") for t in ("", "Threads")) + (
+    "RxModel.GenTie.Debounce", "RxModel.GenTie.Throttle", "RxModel.GenTie.WiringDebounce", "RxModel.GenTie.WiringThrottle")
 
 
 def expanded_source():
